@@ -130,6 +130,10 @@ impl Report {
             for o in &self.explorations {
                 if o.name == name {
                     found = true;
+                    // an exploration cut short by the check budget makes no coverage claim
+                    if o.cap_hit.as_deref().map_or(false, |c| c.starts_with("check budget")) {
+                        continue;
+                    }
                     if o.stats.get(&counter) == 0 && o.viol_counts.is_empty() {
                         self.machinery.push(format!("vacuity: counter {} is 0 in {}", counter, name));
                     }
